@@ -130,7 +130,10 @@ func NewFunc(token token.Token, name *Ident, parameters []*Ident, defaults map[s
 
 func (f *Func) ExpressionNode() {}
 
-func (f *Func) IsExpression() bool { return f.name == nil }
+// IsExpression returns true for named functions too: the compiler leaves the
+// function object on the stack in both cases, so it has to be treated as a
+// value (and popped when it is used as a statement).
+func (f *Func) IsExpression() bool { return true }
 
 func (f *Func) Token() token.Token { return f.token }
 
